@@ -4,6 +4,7 @@ C12 — finalize locks the configuration; unlock_config always restores the lock
 import Gin.Machine
 import Gin.Lemmas.Call
 import Gin.Lemmas.Eval
+import Gin.Lemmas.Statements
 
 namespace Gin.C12
 open Gin Gin.AList
@@ -82,6 +83,7 @@ theorem lock_changes_only_by (st : State) (op : Op) :
       match op with
       | .finalize => (match st.finalize with | .ok _ => true | .error _ => st.locked)
       | .clear _ => false
+      | .parseFiles _ _ _ _ => (step st op).1.locked   -- the multi-file entry point may finalize
       | _ => st.locked := by
   cases op with
   | finalize =>
@@ -90,6 +92,11 @@ theorem lock_changes_only_by (st : State) (op : Op) :
     · simp [h1, h2]
   | clear c => simp [step, State.clear]
   | unlock body r => simp [step]
+  | parse file skip stmts =>
+    simp only [step]
+    exact (parseConfig_frame st file skip stmts).locked
+  | parseFiles skip files b fin => rfl
+  | resolve ps rs a pr => rfl
   | register r =>
     simp only [step]
     cases h : st.register r with
